@@ -368,6 +368,52 @@ pub fn run(tier: Tier, reg: &[VT]) -> Report {
 		acc,
 	);
 
+	// (e) foreign encodings: every type decodes the valid encodings of *every leaf type's* boundary
+	// values (over-wide compacts, tags of other types, longer integers), compared with the reference
+	let mut pool: Vec<Vec<u8>> = vec![];
+	{
+		let pb = domain::Bound { seq_len: 2, full16: false, cap: 300, big_fills: false };
+		let mut seen = std::collections::BTreeSet::new();
+		for vt in reg.iter().filter(|v| v.class == "leaf" || v.class == "bits" || v.core) {
+			let shape = (vt.shape)();
+			for v in domain::values(&shape, &pb) {
+				if let Ok(e) = ref_enc(&shape, &v) {
+					if e.len() <= 40 && seen.insert(e.clone()) {
+						pool.push(e);
+					}
+				}
+			}
+		}
+	}
+	let pool_len = pool.len();
+	let acc = par(reg, |vt, acc| {
+		heartbeat(&format!("{} (e)", vt.name));
+		let shape = (vt.shape)();
+		if zw_container(&shape) {
+			return;
+		}
+		for x in &pool {
+			acc.evaluations += 1;
+			acc.transitions += 1;
+			match check_decode(vt, &shape, x) {
+				Ok(class) => {
+					acc.states += 1;
+					acc.traces += 1;
+					acc.nontrivial += 1;
+					acc.outcome(class);
+				},
+				Err(detail) => acc.violate(Violation {
+					property: "C03".into(),
+					sub: "C03.bytes".into(),
+					key: format!("C03|{}|decode-vs-reference", vt.name),
+					detail,
+					case: decode_case("C03.bytes", vt, x),
+				}),
+			}
+		}
+	});
+	rep.part("(e) foreign encodings", &format!("every registry type decodes a pool of {} distinct valid encodings of all leaf and core types' boundary values", pool_len), acc);
+
 	// (d) hostile cases that need bulk data to distinguish accept from "ran out"
 	let mut acc = Acc::default();
 	for name in ["BitVec<u8, Lsb0>", "BitVec<u64, Msb0>", "BitBox<u32, Lsb0>"] {
